@@ -120,6 +120,15 @@ def udp_scenarios(seed, thorough):
                                  "seq": rnd.randint(0, 2), "off": rnd.randrange(0, 400), "kind": rnd.choice(KINDS), "bit": rnd.randrange(8)}],
                     "sessions": sess, "seed": seed + k, "limit": 600, "expect": "complete", "notx": 0})
         k += 1
+    # answer-then-close: the writer closes right after its last write, so the close request reaches the reader before any
+    # retransmission of the datagram that was tampered with (and dropped); whatever the reader gets must still be a prefix
+    close_sess = [{"c": [["w", 1], ["rall", 65536]], "s": [["rn", 1], ["w", 6000], ["close"]]}]
+    for seq in (1, 2, 3, 4, 5):
+        for kind in ("flip", "trunc"):
+            out.append({"id": "udp/answer-then-close-S2C-data%d-%s" % (seq, kind), "transport": "udp", "mtu": 1400, "cpat": nopad, "spat": nopad,
+                        "tampers": [{"dir": "S2C", "seg": "data", "seq": seq, "off": 100, "kind": kind, "bit": 3}],
+                        "sessions": close_sess, "seed": seed + k, "limit": 600, "notx": 0})
+            k += 1
     # splices: inside one datagram (metadata ciphertext over the payload, payload over metadata, tags exchanged)
     # and from the previous datagram of the same direction (another segment)
     for (seg, seq), pay in ((("data", 1), 1200), (("data", 2), 32), (("open", 0), 600)):
